@@ -27,6 +27,7 @@ type c41Case struct {
 	Call      lib.CallSpec `json:"call"`
 	Limit     int          `json:"limit"`
 	MaxResp   int64        `json:"max_response_bytes"`
+	MaxExt    int64        `json:"max_externalized_response_bytes,omitempty"`
 	External  bool         `json:"external"`        // server has external storage (results above 512 B are uploaded)
 	ExtInput  string       `json:"external_input"`  // "" | params | params+logs | two-data | broken
 	Version   string       `json:"version,omitempty"`
@@ -56,8 +57,17 @@ func genC41(t *rapid.T) c41Case {
 		}
 	}
 	c.External = rapid.IntRange(0, 2).Draw(t, "ext") == 0
+	if c.External && c.Transport == "http" && rapid.IntRange(0, 1).Draw(t, "extcap") == 0 {
+		// uploads above this are refused (unary, exchange) or end the producer turn
+		c.MaxExt = int64(rapid.IntRange(200, 2500).Draw(t, "extcapv"))
+	}
 	if c.Call.Kind == "unary" && c.Call.Unary != nil {
 		c.Call.Unary.Size = rapid.IntRange(0, 3000).Draw(t, "size")
+		if c.MaxExt > 0 && rapid.Bool().Draw(t, "overcap") {
+			// a result that has to be uploaded and is over the upload cap
+			c.Call.Unary.Size = int(c.MaxExt) + rapid.IntRange(300, 3000).Draw(t, "oversize")
+			c.Call.Unary.Outcome, c.Call.Unary.Err = "value", nil
+		}
 		if rapid.Bool().Draw(t, "bytes") {
 			c.Call.Method = "u_bytes"
 		}
@@ -119,6 +129,9 @@ func (c c41Case) server(origin string) (*vgirpc.Server, *vgirpc.HttpServer) {
 	h.SetProducerBatchLimit(c.Limit)
 	if c.MaxResp > 0 {
 		h.SetMaxResponseBytes(c.MaxResp)
+	}
+	if c.MaxExt > 0 {
+		h.SetMaxExternalizedResponseBytes(c.MaxExt)
 	}
 	return srv, h
 }
@@ -245,6 +258,9 @@ func runC41(c c41Case) (out lib.Outcome) {
 	if c.MaxResp > 0 {
 		out.Label("response-cap")
 	}
+	if c.MaxExt > 0 {
+		out.Label("externalized-cap:" + c.Call.Kind)
+	}
 	// first run warms any per-server lazily cached allocation (describe hash, pages)
 	base := outstanding()
 	c.play(srv, h, origin.URL, &out)
@@ -286,7 +302,7 @@ var propC41 = lib.Prop[c41Case]{
 		"Oracle: the framework's outstanding Arrow bytes (LeakCheckSummary) after the second run equal those after the first (the first run absorbs per-server lazily cached allocations). Non-trivial: a failing path, an external input, or a response cap.",
 	Gen:          genC41,
 	Run:          runC41,
-	Essential:    []string{"transport:pipe", "transport:http", "failing-path", "external-input:params+logs", "response-cap", "kind:stream"},
+	Essential:    []string{"transport:pipe", "transport:http", "failing-path", "external-input:params+logs", "response-cap", "externalized-cap:unary", "externalized-cap:stream", "kind:stream"},
 	EssentialMin: 300,
 	Assumptions:  []string{"only buffers taken from the package's checked allocator are counted; batches the IPC reader decodes with arrow's default allocator and handler-built batches are outside it"},
 }
